@@ -19,14 +19,14 @@ package utils
 //@   modifies nothing
 //@   ensures [C20] name-and-namespace: len(result) == 2 && len(result1) == 2 && result[0] == "namespace" && result[1] == "name"
 //@             && result1[0] == obj.Namespace && result1[1] == obj.Name
-//@   ensures fresh-slices: freshroot(result) && freshroot(result1)
+//@   ensures fresh-slices: freshroot(result) && freshroot(result1) && root(result) != root(result1)
 //@ func BuildInfoLabels
 //@   requires obj != nil
 //@   modifies nothing
 //@   ensures [C20] one-entry-per-label: len(result) == len(obj.Labels) && len(result1) == len(obj.Labels)
 //@   ensures [C20] value-belongs-to-its-key: forall i int :: 0 <= i && i < len(result) ==>
 //@             exists key string :: (key in obj.Labels) && result[i] == sanitizeLabelName(key) && result1[i] == obj.Labels[key]
-//@   ensures fresh-slices: freshroot(result) && freshroot(result1)
+//@   ensures fresh-slices: freshroot(result) && freshroot(result1) && root(result) != root(result1)
 //@   loop 1 invariant len(keys) == iter() && freshroot(keys)
 //@   loop 1 invariant forall j int :: 0 <= j && j < len(keys) ==> (keys[j] in obj.Labels)
 //@   loop 2 invariant forall j int :: 0 <= j && j < len(keys) ==> (keys[j] in obj.Labels)
